@@ -283,9 +283,10 @@ class FuncSpec:
       prologue  C text inserted at the start of the body (ghost only)
       slice_from  program slice (DESIGN 3.3 R5): regex that must match exactly once in the body; only the text from that match to the end
                 of the body is kept (everything before it is dropped and named in the evidence)
+      slice_to  optional regex (matched in the text kept by slice_from, exactly once): the text from its match on is dropped too
     """
     def __init__(self, name, file, anchor, csig, ordinal=0, count=None, sig_check=None, body_match=None, contract=(),
-                 aliases=None, rules=(), loops=None, prologue='', common=True, epilogue='', slice_from=None):
+                 aliases=None, rules=(), loops=None, prologue='', common=True, epilogue='', slice_from=None, slice_to=None):
         self.__dict__.update(locals())
         del self.__dict__['self']
 
@@ -303,6 +304,11 @@ def render_func(fs, info):
             raise Broken('EXTRACTION-BROKEN %s: slice start %r matched %d times, expected 1' % (what, fs.slice_from, len(ms)))
         dropped_lines = src_body.count('\n', 0, ms[0].start())
         src_body = src_body[ms[0].start():]
+    if fs.slice_to:
+        me = list(re.finditer(fs.slice_to, src_body))
+        if len(me) != 1:
+            raise Broken('EXTRACTION-BROKEN %s: slice end %r matched %d times, expected 1' % (what, fs.slice_to, len(me)))
+        src_body = src_body[:me[0].start()]
     body, fired = apply_rules(src_body, list(fs.rules), what)
     if fs.common:
         body, f2 = apply_rules(body, R1_COMMON, what)
@@ -335,7 +341,7 @@ def render_func(fs, info):
         'rules_fired': [[p, n] for p, n in fired if n],
         'sha256_body': hashlib.sha256(loc.body.encode()).hexdigest(),
         'loop_contracts': len([k for k in (fs.loops or {}) if isinstance(k, int)]),
-        'slice': ('only the text from %r to the end of the function body is under contract; the %d lines before it are dropped' % (fs.slice_from, dropped_lines)) if fs.slice_from else None,
+        'slice': ('only the text from %r to %s is under contract; the %d lines before it%s are dropped' % (fs.slice_from, ('the match of %r' % fs.slice_to) if fs.slice_to else 'the end of the function body', dropped_lines, ' and everything after it' if fs.slice_to else '')) if fs.slice_from else None,
     }
     return '\n'.join(lines) + '\n'
 
